@@ -51,6 +51,11 @@ type C07Case struct {
 	// once, each with a Host of its own, so scripts built concurrently must
 	// not share an ID, an address or a buffer.
 	Workers int `json:"workers,omitempty"`
+	// TmplLink: when the server starts, the configured template path exists
+	// and is a symbolic link to a valid template ("file"), or lies in a
+	// directory reached through a symbolic link ("dir"); the history then
+	// edits, removes and re-creates the configured path as usual.
+	TmplLink string `json:"tmpl_link,omitempty"`
 }
 
 var (
@@ -288,6 +293,29 @@ func runC07(t testing.TB, c C07Case) (key, what string, classes map[string]int) 
 		return "", "", classes
 	}
 	s.Stop()
+	state := "missing"
+	marker := 0
+	shape := 0
+	switch c.TmplLink {
+	case "file":
+		real := filepath.Join(dir, "real-template.tmpl")
+		marker, shape, state = 7001, 0, "valid"
+		os.WriteFile(real, []byte(validTemplate(marker, shape)), 0o644)
+		if err := os.Symlink(real, tmplFile); err != nil {
+			return "HARNESS", err.Error(), classes
+		}
+		classes["template-path-is-a-symlink"]++
+	case "dir":
+		realDir := filepath.Join(dir, "real-dir")
+		os.Mkdir(realDir, 0o755)
+		if err := os.Symlink(realDir, filepath.Join(dir, "linked-dir")); err != nil {
+			return "HARNESS", err.Error(), classes
+		}
+		tmplFile = filepath.Join(dir, "linked-dir", "cb.tmpl")
+		marker, shape, state = 7002, 1, "valid"
+		os.WriteFile(tmplFile, []byte(validTemplate(marker, shape)), 0o644)
+		classes["template-path-is-a-symlink"]++
+	}
 	cfg.Tmpl = tmplFile
 	if s, err = Start(cfg); err != nil {
 		panic(err)
@@ -295,9 +323,6 @@ func runC07(t testing.TB, c C07Case) (key, what string, classes map[string]int) 
 	if pin, err = s.ServedPin(); err != nil {
 		return "HARNESS", "cannot handshake: " + err.Error(), classes
 	}
-	state := "missing"
-	marker := 0
-	shape := 0
 	for si, st := range c.Tmpl {
 		switch st.Action {
 		case "valid":
@@ -311,7 +336,16 @@ func runC07(t testing.TB, c C07Case) (key, what string, classes map[string]int) 
 			os.WriteFile(tmplFile, []byte(fmt.Sprintf("partial-output-MARK-%d {{.Nope}} tail", st.Marker)), 0o644)
 		case "delete":
 			state = "missing"
-			os.Remove(tmplFile)
+			if c.TmplLink == "dir" {
+				// the directory link is pointed somewhere else (where there is
+				// no template); the old directory and its file stay behind
+				nd := filepath.Join(dir, fmt.Sprintf("real-dir-%d", si))
+				os.Mkdir(nd, 0o755)
+				os.Remove(filepath.Join(dir, "linked-dir"))
+				os.Symlink(nd, filepath.Join(dir, "linked-dir"))
+			} else {
+				os.Remove(tmplFile)
+			}
 		}
 		classes["tmpl-"+state]++
 		for q := 0; q < st.NReq; q++ {
@@ -468,6 +502,9 @@ func genC07() *rapid.Generator[C07Case] {
 					NReq:   rapid.IntRange(1, 3).Draw(t, "nreq"),
 				})
 			}
+		}
+		if len(c.Tmpl) > 0 {
+			c.TmplLink = rapid.SampledFrom([]string{"", "", "file", "dir"}).Draw(t, "tmpllink")
 		}
 		if rapid.IntRange(0, 3).Draw(t, "ids") == 0 {
 			c.NIDs = rapid.SampledFrom([]int{1, 5, 50, 200}).Draw(t, "nids")
